@@ -21,7 +21,8 @@ pub const ENTRY: Entry = Entry {
            prefixed by a RAMWR command. Oracle: concatenated written bytes == instruction, parameters, pixel bytes in order; DC low \
            for exactly the instruction byte; transactions within the termination budget; Ok. Non-trivial = histories with >= 2 calls. Post-fault leg: (call a with its k-th DC/SPI operation \
            failing once, every k) ; RAMWR ; (every call b): b and the recovery command must again deliver exactly their own bytes; \
-           and fill ; (stream starting with the fill colour | other stream | fill, k-th operation failing) ; RAMWR ; fill.",
+           and fill ; (stream starting with the fill colour | other stream | fill, k-th operation failing) ; RAMWR ; fill. \
+           Byte totals beyond 2^32: send_repeated_pixel on the transport, and fill_solid through the real Display + pixel-format layer on a 65535 x 65535 external model (Rgb565 and Rgb666, grey and non-grey), run to completion in counting mode.",
     assumptions: &["a failed or zero-length SPI write delivers nothing", "the buffer is the transport's only state, so depth 2-3 with adversarial previous content covers any history"],
     run,
 };
@@ -197,6 +198,48 @@ pub fn extreme_count(n: usize, count: u32, pat: [u8; 3], l: usize) -> (Option<(S
                 mk("byte-count", format!("{} bytes written, {want} expected", b.spi_bytes))
             } else if let Some(off) = b.spi_mismatch {
                 mk("bytes", format!("byte at offset {off} is not the pixel pattern"))
+            } else {
+                None
+            }
+        }
+        Outcome::Panic(m) => mk("panic", m),
+        Outcome::NonTermination(m) => mk("non-termination", m),
+        Outcome::Err(e) => mk("spurious-error", format!("{e:?}")),
+    };
+    (f, b.spi_bytes, b.spi_txns)
+}
+
+/// a solid fill of w x h pixels through the real Display on a 65535 x 65535 external model over the real SpiInterface:
+/// the pixel-format layer and Display::fill_solid sit between the caller and the transport, and their counts can
+/// overflow too.  Counting mode is armed at the memory-write-start command.
+pub fn display_extreme(c666: bool, w: u32, h: u32, colour: u32, len: u16) -> (Option<(String, String)>, u64, u64) {
+    use crate::dut::*;
+    use crate::rig::{Op, Rig};
+    let cfg = Cfg::tiny(65535, 65535, c666, Transport::Spi { len }, (65535, 65535, 0, 0), 0);
+    let mut rig = Rig::new(&cfg);
+    let n = if c666 { 3usize } else { 2 };
+    let pat: [u8; 3] = if c666 {
+        [((colour >> 12) & 0x3F) as u8 * 4, ((colour >> 6) & 0x3F) as u8 * 4, (colour & 0x3F) as u8 * 4]
+    } else {
+        [(colour >> 8) as u8, colour as u8, 0]
+    };
+    let want = w as u64 * h as u64 * n as u64;
+    {
+        let mut b = rig.bd.borrow_mut();
+        b.arm_on_ramwr = Some((n, pat));
+    }
+    rig.set_budget(2 * (want / ((len as u64 / n as u64) * n as u64) + 1) + 64, 0);
+    let out = rig.apply(&Op::FillSolid { r: Rect { x: 0, y: 0, w, h }, c: colour });
+    let b = rig.bd.borrow();
+    let mk = |k: &str, m: String| Some((format!("fill_solid(display, count*N>=2^32)/{k}"), format!("{} fill_solid of {w}x{h} pixels of colour {colour:#x} over SpiInterface({len}): {m}", if c666 { "Rgb666" } else { "Rgb565" })));
+    let f = match out {
+        Outcome::Ok => {
+            if b.arm_on_ramwr.is_some() {
+                mk("no-memory-write", "no memory-write-start command was seen".into())
+            } else if b.spi_bytes != want {
+                mk("byte-count", format!("{} pixel bytes written after the memory-write-start command, {want} expected", b.spi_bytes))
+            } else if let Some(off) = b.spi_mismatch {
+                mk("bytes", format!("byte at offset {off} is not the colour's encoding {:02x?}", &pat[..n]))
             } else {
                 None
             }
@@ -424,6 +467,35 @@ fn run(ctx: &Ctx) -> Part {
         })
         .reduce(Acc::new, Acc::merge);
     acc = acc.merge(ex);
+    // the same through Display::fill_solid and the pixel-format layer (grey and non-grey colours, both colour types)
+    let dex: Vec<(bool, u32, u32, u32, u16)> = if quick {
+        vec![(true, 37839, 37839, 0x15555 & 0x3FFFF, 4096), (false, 46341, 46341, 0x0000, 4096), (true, 40000, 35800, 0x00FC0, 4095)]
+    } else {
+        vec![
+            (true, 37839, 37839, 0x15555, 4096),
+            (false, 46341, 46341, 0x0000, 4096),
+            (true, 40000, 35800, 0x00FC0, 4095),
+            (true, 65535, 65535, 0x3FFFF, 4096),
+            (false, 65535, 65535, 0x1234, 4096),
+            (false, 65535, 40000, 0xFFFF, 64),
+            (true, 65535, 30000, 0x00000, 512),
+        ]
+    };
+    let dx = dex
+        .par_iter()
+        .fold(Acc::new, |mut acc, &(c666, w, h, colour, len)| {
+            acc.evaluations += 1;
+            acc.nontrivial += 1;
+            let (f, bytes, txns) = display_extreme(c666, w, h, colour, len);
+            acc.count("display_extreme_fill_bytes", bytes);
+            acc.count("display_extreme_fill_transactions", txns);
+            if let Some((sig, msg)) = f {
+                acc.violation(Violation { prop: ctx.prop.clone(), sig, msg, case: json!({"kind": "c06d", "variant": ctx.variant, "c666": c666, "w": w, "h": h, "colour": colour, "len": len}) });
+            }
+            acc
+        })
+        .reduce(Acc::new, Acc::merge);
+    acc = acc.merge(dx);
     let bounds = json!({"pixel_widths": [2, 3], "buffer_lengths": jobs.iter().map(|j| j.1).collect::<Vec<_>>(), "depth": "2 (3 for short buffers)", "poison": "0xEE",
         "extreme_counts": "send_repeated_pixel with count*N >= 2^32 bytes, run to completion in counting mode (byte total and periodic content checked)"});
     let mut part = Part::new(ctx, acc, bounds, true, t0.elapsed().as_secs_f64());
@@ -434,6 +506,20 @@ fn run(ctx: &Ctx) -> Part {
 }
 
 pub fn replay(case: &serde_json::Value) -> i32 {
+    if case["kind"] == "c06d" {
+        let (f, bytes, txns) = display_extreme(case["c666"].as_bool().unwrap(), case["w"].as_u64().unwrap() as u32, case["h"].as_u64().unwrap() as u32, case["colour"].as_u64().unwrap() as u32, case["len"].as_u64().unwrap() as u16);
+        println!("{bytes} pixel bytes in {txns} transactions");
+        return match f {
+            Some((s, m)) => {
+                println!("REPLAY: {s} -- {m}");
+                1
+            }
+            None => {
+                println!("REPLAY: passes");
+                0
+            }
+        };
+    }
     if case["kind"] == "c06x" {
         let pat: Vec<u8> = serde_json::from_value(case["pixel"].clone()).unwrap();
         let (f, bytes, txns) = extreme_count(case["n"].as_u64().unwrap() as usize, case["count"].as_u64().unwrap() as u32, [pat[0], pat[1], pat[2]], case["len"].as_u64().unwrap() as usize);
